@@ -170,3 +170,33 @@ def c02(ctx, replay):
                     "distinct (inventory, non-empty selector)",
                assumptions=["which value wins when two Docker keys sanitise to one name (or shadow a built-in) is left open: cases avoid it",
                             "regexes are drawn from the algebra of Regex.tla; the rendering ReText is checked against the case by TLC"])
+
+
+@prop("C14")
+def c14(ctx, replay):
+    def nontrivial(scns):
+        n = 0
+        for sid, lines in scns:
+            i = json.loads(lines[0])["in"]
+            if i["listErr"] or i["faults"] or any(f["raw"] for c in i["ctrs"] for f in c["frames"]):
+                n += 1
+        return n
+    inv = ["NoLeak", "Surfaces", "NoSpuriousError", "AllFaultsSurface"]
+    shapes = [(1, "log"), (1, "metric"), (2, "log"), (2, "metric"), (2, "binop"), (3, "log"), (3, "metric")]
+    if ctx.tier != "quick":
+        shapes += [(3, "binop"), (4, "log"), (4, "metric"), (1, "binop")]
+    mcs = [dict(name="lc-%d-%s" % (nc, sh), module="MC_Lifecycle", consts=dict(NC=nc, Shape=V.tla_str(sh)), invariants=inv,
+                properties=["CloseAfterOpen"], workers=4) for nc, sh in shapes]
+    return std(ctx, "C14", mc=mcs, harness_cmd="docker", harness_opts=["mode=lifecycle"], trace_module="Trace_Lifecycle",
+               nrand=T(ctx, 400, 6000), replay=replay, nontrivial=nontrivial, exhaustive=True, chunk_events=20000,
+               rule="step 1: reader life cycle (list, concurrent opens completing in any order, Wait, cleanup on open failure, "
+                    "iteration to the first stream error, error check, Close of the iterator tree, closeOnError for binary "
+                    "operations) for 1..3 (quick) / 1..4 (thorough) containers x {log, metric, binop} x every single fault (list, "
+                    "open of container i in round r, stream of container i broken with/without error after k records); every fault "
+                    "is exported in each concrete realisation (cut in header / in body, transport error at a frame boundary / in a "
+                    "body, daemon-error frame, corrupt timestamp) x all completion orders and replayed on Engine.Eval over the fake "
+                    "daemon; random driver: <=5 containers, 5 query shapes incl. instant, random fault positions and read sizes; "
+                    "non-trivial = scenarios with a fault",
+               assumptions=["limit -1: every stream is consumed, so every error-kind fault is reached or preceded by another error",
+                            "double Close and the error text are left open",
+                            "a failure of only the second ContainerList call is model-checked but not replayed (the fake fails all or none)"])
